@@ -379,6 +379,8 @@ class Interp:
             return self.eval_place(st, s[5:])
         if s.startswith("const "):
             return self.eval_const(s[6:])
+        if not re.match(r"^[_(]", s):
+            return self.ctx.named(s)   # a function item / path used as a value
         return self.eval_place(st, s)
 
     def eval_const(self, c):
